@@ -195,7 +195,9 @@ CLAIMED = {
              "computes exactly the `basedOn` lists). DefWF is the shape a load produces (keys are names and unique, containers "
              "in dependency order, back-populated inheritors, tables in cache order) with every element inside the regime of "
              "its element-level theorem; a concrete instance (exDef_wf) is proved to satisfy it and its round trip is also "
-             "computed by the kernel. Outside the regime (not theorems; decided by the correspondence): enumerations with NaN / "
+             "computed by the kernel; membership is computable - inRegime, proved sound (inRegime_sound) - and every run records in "
+             "its evidence how many of the definitions the library itself held (loaded, and re-loaded from its own output) the "
+             "test accepts. Outside the regime (not theorems; decided by the correspondence): enumerations with NaN / "
              "infinite or non-ASCII keys, a byte order recorded on a single-byte string codec, definitions whose tables are not yet in load order (first cycle of an object-assembled definition), and the "
              "equality of decoding - definitions built both ways go through write/load/write/load/write on model and "
              "library, every stage is compared, and an independent by-name structural comparison (incl. length adjustments) "
